@@ -106,6 +106,7 @@ def run(ctx):
     import itertools
     # (the twin run needs blocks that do not depend on which earlier calls ran: no object reuse in the seeded histories; in the
     #  one-object family the rejected requests hand the object over AS IT IS, so the twin sees the same objects)
+    C.EXTRA_BAD[:] = C.UNNOTICED_BAD_KINDS          # (only here: requests the library accepts although they are wrong)
     runs = itertools.chain(C.explore(ctx, ctx.n(500, 8000), 12, styles, p_invalid=0.55, hole=True, reuse=False),
                            C.explore_one_object(ctx, depth=5 if ctx.thorough else 4))
     wd = tempfile.mkdtemp(prefix="vtdf")
